@@ -265,6 +265,42 @@ def run_groups(pid, groups, wd, verdict, workers=16):
     if traces:
         k = sorted(traces)[len(traces) // 2]
         stats["samples"] = [dict(group=groups[owner[k]]["cfg"]["name"], case={kk: vv for kk, vv in cases[k].items()}, real_events=len(traces[k]))]
+    if vlib.tier() == "thorough" and not verdict.violations and per:
+        gi = sorted(per)[0]
+        g = groups[gi]
+        tf = os.path.join(wd, "dselftest.ndjson")
+        with open(tf, "w") as f:
+            for t in per[gi][:40]:
+                f.writelines(traces[t])
+
+        def c_list(evs):
+            for e in evs:
+                if e["e"] == "done":
+                    e["list"] = e["list"][:-1] + [e["list"][-1] + 1000]
+                    return True
+            return False
+
+        def c_query(evs):
+            for e in evs:
+                if e["e"] == "out" and e["ty"] == "Q":
+                    e["view"] = e["view"][:-1]
+                    return True
+            return False
+
+        def c_err(evs):
+            for e in evs:
+                if e["e"] == "ret" and e["err"] == "":
+                    e["err"] = "made up"
+                    return True
+            return False
+
+        def validate(path):
+            name = write_mc(wd, dict(g["cfg"], name=g["cfg"]["name"] + "_st"), "trace", trace=os.path.basename(path), expect_all=g["expect_all"], expect_none=g["expect_none"])
+            r = vlib.run_tlc(name, name + ".cfg", ["Disc.tla", "DiscTrace.tla"], workdir=wd, workers=1, timeout=900, keep_prints=["VIOL", "END"], heap="8g")
+            return sum(1 for t, _ in r.prints if t == "VIOL"), sum(1 for t, o in r.prints if t == "END" and o["drift"])
+
+        stats["selftest"] = vlib.binding_selftest("disc", tf, [("agreed list changed", c_list), ("queried view truncated", c_query),
+                                                               ("successful return turned into an error", c_err)], validate)
     return stats
 
 
@@ -290,7 +326,7 @@ def run(pid):
         groups=[dict(group=g["cfg"]["name"], runs=len(g["cases"]), adversarial_sets_enumerated=g.get("enumerated", 0),
                      expect_all_done=g["expect_all"], expect_none_done=g["expect_none"]) for g in groups],
         real_events=stats["events"], runs_with_completion=stats["completed_runs"], drift_traces=stats["drift"], drift_kinds=stats["drift_kinds"],
-        monitors=MONITORS, known_findings_seen=sorted(verdict.known_seen),
+        monitors=MONITORS, known_findings_seen=sorted(verdict.known_seen), binding_selftest=stats.get("selftest", "thorough tier only"),
         rule="real disc.Member runs on a harness-controlled per-link FIFO network: seeded schedules x policies x (honest | too few | too many | "
              "Byzantine message sets enumerated by TLC); every event log validated by TLC against DiscTrace.tla",
     ), [
